@@ -27,6 +27,14 @@ func (s *scripted) Authorize(ctx context.Context, a k8sauth.Attributes) (k8sauth
 	return k8sauth.DecisionAllow, "", fmt.Errorf("scripted error for %s", a.GetName())
 }
 
+func (s *scripted) ConditionsAwareAuthorize(ctx context.Context, a k8sauth.Attributes) k8sauth.ConditionsAwareDecision {
+	return k8sauth.ConditionsAwareDecisionFromParts(s.Authorize(ctx, a))
+}
+
+func (s *scripted) EvaluateConditions(ctx context.Context, decision k8sauth.ConditionsAwareDecision, data k8sauth.ConditionsData) (k8sauth.Decision, string, error) {
+	return k8sauth.DecisionDeny, "", k8sauth.ErrorConditionEvaluationNotSupported
+}
+
 func main() {
 	n := 20
 	for i := 0; i < n; i++ {
